@@ -80,7 +80,7 @@ def gen_output(rng, kind, at_us):
          'timeout': rng.choice([0, 1, 2, 10, 3600, 86400]),
          'preimage': rng.bytes(rng.choice([1, 2, 16, 20, 32, 33, 64])).hex(),
          'use_digest': rng.chance(1, 3),
-         'allowed': rng.choice(['00', '00', '01', '03', 'ff', '06']),
+         'allowed': rng.choice(['00', '00', '01', '03', 'ff', '06', '80', 'a0']),
          'hash_size': rng.choice([1, 16, 20, 32, 64]),
          'sigfields': {}}
     for k in rng.sample(range(1, 9), rng.rng(1, 3)):
@@ -110,7 +110,7 @@ def gen_step(rng, cell, oid, out, clocks, vname, thr, fault_free):
         if ds == -1:
             want_now = t - thr + 1
     at = max(_at_for(clocks[vname], max(want_now, 0)), out['at_us'] + 1)
-    flags = sorted({'00', out['allowed'], '01', '02'})
+    flags = sorted({'00', out['allowed'], '01', '02', '80'})
     step = {'at_us': at, 'validator': vname, 'out': oid, 'actor': ac, 'wkind': wk,
             'pre': pr, 't': t, 'flag': rng.choice(['00', '00', out['allowed'], rng.choice(flags)]),
             'faults': [], 'corrupt': None, 'thr': thr,
